@@ -60,8 +60,8 @@ def plan(pid, tier):
         "C04": [job("C04", "race", timeout=1500, parts=8), job("GATED", "race", arg="C04", timeout=1500, parts=4)],
         "C13": [job("C13", "race", timeout=1500, parts=8), job("GATED", "race", arg="C13", timeout=1500, parts=4)],
         "C17": [job("C17", "race", timeout=1500, parts=8), job("GATED", "race", arg="C17", timeout=1500, parts=4)],
-        "C05": [job("C05X", "race", timeout=1500, parts=8), job("GATED", "race", arg="C05", timeout=1500, parts=4)],
-        "C06": [job("GATED", "race", arg="C06", timeout=1500, parts=8)],
+        "C05": [job("C05X", "race", timeout=1500, parts=8), job("GATED", "race", arg="C05", timeout=1500, parts=4), job("C05S", "race", timeout=1500, parts=6)],
+        "C06": [job("GATED", "race", arg="C06", timeout=1500, parts=8), job("C14", "race", arg="C06", timeout=1500, parts=2)],
         "C14": [job("C14", "race", timeout=1500, parts=4)],
         "C15": [job("GATED", "race", arg="C15", timeout=1500, parts=8)],
         "C07": [job("C07", "race", timeout=1500, parts=4)],
@@ -220,6 +220,9 @@ def main():
     except ValueError:
         seed = 1
     jobs = plan(pid, tier)
+    only = os.environ.get("VERIF_ONLY")  # debugging aid: run only the children of one workload
+    if jobs and only:
+        jobs = [j for j in jobs if j["workload"] == only]
     if not jobs:
         print("unknown property", pid)
         return 2
